@@ -210,7 +210,7 @@ class _StatePointDict(JSONAttrDict):
                     os.remove(self.filename)
                 except Exception:  # ignore all errors here
                     pass
-                raise
+            raise
 
     def load(self, job_id):
         """Trigger a load from disk.
